@@ -24,6 +24,7 @@ import (
 func TestWorker(t *testing.T) {
 	worlds.RegisterWorld("W5", runW5)
 	worlds.RegisterWorld("W5H", runW5H)
+	worlds.RegisterShrinker("W5", shrinkW5)
 	go func() {
 		for range logger.Messages {
 		}
@@ -616,4 +617,37 @@ func hashBytes(b []byte) uint64 {
 		h = (h ^ uint64(c)) * 1099511628211
 	}
 	return h
+}
+
+// shrinkW5 proposes simpler trees: one damaged factory file made intact, one missing directory restored, one
+// user-side entry dropped (the file then has its template content).
+func shrinkW5(raw json.RawMessage) []json.RawMessage {
+	var tr w5Tree
+	if json.Unmarshal(raw, &tr) != nil {
+		return nil
+	}
+	var out []json.RawMessage
+	emit := func(t w5Tree) {
+		b, _ := json.Marshal(&t)
+		out = append(out, b)
+	}
+	for i, f := range tr.Factory {
+		if f.State != "intact" {
+			t := tr
+			t.Factory = append([]w5File(nil), tr.Factory...)
+			t.Factory[i] = w5File{Path: f.Path, State: "intact"}
+			emit(t)
+		}
+	}
+	for i := range tr.MissingDirs {
+		t := tr
+		t.MissingDirs = append(append([]string(nil), tr.MissingDirs[:i]...), tr.MissingDirs[i+1:]...)
+		emit(t)
+	}
+	for i := range tr.User {
+		t := tr
+		t.User = append(append([]w5File(nil), tr.User[:i]...), tr.User[i+1:]...)
+		emit(t)
+	}
+	return out
 }
